@@ -24,7 +24,11 @@ Record field := { f_skip : bool; f_ty : cty }.
 Inductive dkind := DStruct (fs : list field) | DUnit | DTuple | DEnum.
 Record tdef := { d_name : str; d_derives : list str; d_kind : dkind }.
 (* payload expression of an emit call after stripping & and .clone(), as infer_payload_type does *)
-Inductive pay := PVar (v : str) | PStruct (n : str) | POther.
+(* PVar v: a variable; PStruct n: a struct literal whose path ends in n (any number of leading segments: events::N,
+   crate::events::N, self::N), directly or through let v = <literal>; PVariant e v st: an enum variant E::V, as a
+   struct-variant literal (st) or as a path; PNew segs n: let v = segs::N::new() followed by the emit of v *)
+Inductive pay := PVar (v : str) | PStruct (n : str) | POther
+               | PVariant (e v : str) (st : bool) | PNew (segs : list str) (n : str).
 Record fndef := { fn_name : str; fn_attrs : list (list str); fn_params : list (str * cty);
                   fn_ret : option cty; fn_emits : list pay }.
 (* IMod: an inline module holding type definitions; the analysis looks at top-level items only
@@ -112,8 +116,11 @@ Fixpoint lookup_sym (v : str) (ps : list (str * cty)) : option str :=
 Definition payload_type (f : fndef) (p : pay) : str :=
   match p with
   | PVar v => match lookup_sym v (fn_params f) with Some t => t | None => v end
-  | PStruct n => n
+  | PStruct n => n                                   (* infer_payload_type / infer_type_from_init: path.segments.last() *)
   | POther => L "unknown"
+  | PVariant _ v true => v                           (* Expr::Struct: the last segment is the variant *)
+  | PVariant _ _ false => L "unknown"                (* qualified value path *)
+  | PNew segs n => match segs with [] => n | s :: _ => s end   (* Expr::Call with >= 2 segments: segments[0] *)
   end.
 
 Definition file_fns (its : list item) : list fndef := flat_map (fun it => match it with IFn f => [f] | _ => [] end) its.
